@@ -417,6 +417,63 @@ fn process_command_queue<'a, CmdProcessor: interface::CommandProcessor<'a>>(
     recoder_state
 }
 
+/// Verification hook (only with `--cfg brotli_verif`): a thread-local log of the arguments of
+/// every `LogMetaBlock` invocation (the encoder's own command list, the distance cache, the
+/// recoder state, the block splits and the parameters `process_command_queue` reads), so that
+/// a model of the recoder can be run on the same meta-blocks as the real one.
+#[cfg(brotli_verif)]
+pub mod verif_ir {
+    use std::cell::RefCell;
+    use std::vec::Vec;
+    #[derive(Clone, Debug, Default)]
+    pub struct Split {
+        pub types: Vec<u8>,
+        pub lengths: Vec<u32>,
+        pub num_types: u32,
+    }
+    #[derive(Clone, Debug, Default)]
+    pub struct Rec {
+        /// (insert_len_, copy_len_, dist_extra_, cmd_prefix_, dist_prefix_)
+        pub commands: Vec<[u32; 5]>,
+        pub input0_len: usize,
+        pub input1_len: usize,
+        pub dist_cache: [i32; 4],
+        pub num_bytes_encoded: usize,
+        pub btypel: Split,
+        pub btypec: Split,
+        pub btyped: Split,
+        pub lgwin: i32,
+        pub num_direct_distance_codes: u32,
+        pub distance_postfix_bits: u32,
+        pub high_entropy_detection_quality: u8,
+        pub has_context_type: bool,
+    }
+    thread_local! { pub static LOG: RefCell<Option<Vec<Rec>>> = RefCell::new(None); }
+    pub fn enable() {
+        LOG.with(|l| *l.borrow_mut() = Some(Vec::new()));
+    }
+    pub fn take() -> Vec<Rec> {
+        LOG.with(|l| match l.borrow_mut().as_mut() {
+            Some(v) => core::mem::take(v),
+            None => Vec::new(),
+        })
+    }
+    pub(super) fn split(b: &super::BlockSplitRef) -> Split {
+        Split {
+            types: b.types.to_vec(),
+            lengths: b.lengths.to_vec(),
+            num_types: b.num_types,
+        }
+    }
+    pub(super) fn push(r: Rec) {
+        LOG.with(|l| {
+            if let Some(v) = l.borrow_mut().as_mut() {
+                v.push(r);
+            }
+        });
+    }
+}
+
 fn LogMetaBlock<'a, Alloc: BrotliAlloc, Cb>(
     alloc: &mut Alloc,
     commands: &[Command],
@@ -436,6 +493,33 @@ fn LogMetaBlock<'a, Alloc: BrotliAlloc, Cb>(
         &mut Alloc,
     ),
 {
+    #[cfg(brotli_verif)]
+    verif_ir::push(verif_ir::Rec {
+        commands: commands
+            .iter()
+            .map(|c| {
+                [
+                    c.insert_len_,
+                    c.copy_len_,
+                    c.dist_extra_,
+                    u32::from(c.cmd_prefix_),
+                    u32::from(c.dist_prefix_),
+                ]
+            })
+            .collect(),
+        input0_len: input0.len(),
+        input1_len: input1.len(),
+        dist_cache: *dist_cache,
+        num_bytes_encoded: recoder_state.num_bytes_encoded,
+        btypel: verif_ir::split(&block_type.btypel),
+        btypec: verif_ir::split(&block_type.btypec),
+        btyped: verif_ir::split(&block_type.btyped),
+        lgwin: params.lgwin,
+        num_direct_distance_codes: params.dist.num_direct_distance_codes,
+        distance_postfix_bits: params.dist.distance_postfix_bits,
+        high_entropy_detection_quality: params.high_entropy_detection_quality,
+        has_context_type: context_type.is_some(),
+    });
     let mut local_literal_context_map = [0u8; 256 * 64];
     let mut local_distance_context_map = [0u8; 256 * 64 + interface::DISTANCE_CONTEXT_MAP_OFFSET];
     assert_eq!(
